@@ -136,7 +136,10 @@ def jsonable(x):
         return dict((str(k), jsonable(v)) for k, v in x.items())
     if isinstance(x, (int, float, str, bool)) or x is None:
         return x
-    return repr(x)
+    try:
+        return repr(x)[:400]
+    except Exception:
+        return '<unprintable %s>' % type(x).__name__
 
 
 def _replay_stage(mod, art, stage):
